@@ -367,15 +367,15 @@ func aggregateRows(selectList sql.SelectList, groupBy []sql.ColumnReference, row
 				}
 				rows[groupKeyIdx].Vals[colIdx] = rows[groupKeyIdx].Vals[colIdx].(int64) + row.Vals[colIdx].(int64)
 			case sql.Average:
-				avgCol, ok := selectCol.ValueExpression.(sql.ColumnReference)
-				if !ok {
+				if _, ok := selectCol.ValueExpression.(sql.ColumnReference); !ok {
 					// should be caught in parser
 					panic("avg() param must be a ColumnReference")
 				}
 
-				// update the count of this particular group key + value
-				// combination
-				countKey := fmt.Sprintf("%s%s", key, avgCol)
+				// update the count of this particular group key + select
+				// list position combination (the same column may be averaged
+				// by more than one select item)
+				countKey := fmt.Sprintf("%s%d", key, colIdx)
 				if _, ok := counts[countKey]; !ok {
 					counts[countKey] = 0
 				}
